@@ -64,8 +64,9 @@ def configs(tier, seed):
         v = cls[0]
         chosen = members if tier == "thorough" else [rnd.choice(members)]
         shapes = SHAPES_13 if v == "TLS13" else SHAPES_LEGACY
-        for code, name in chosen:
-            sh_list = shapes if (tier == "thorough" or True) else [rnd.choice(shapes)]
+        for idx, (code, name) in enumerate(chosen):
+            # thorough: every member of the class with the first handshake shape, the class's first member with every shape
+            sh_list = shapes if (tier == "quick" or idx == 0) else [shapes[0]]
             if tier == "quick" and v != "TLS13":
                 sh_list = [shapes[0], rnd.choice(shapes[1:])]
                 # cipher state that a spurious decryption would disturb (key stream position, CBC residue, nonce counter): always with
@@ -109,7 +110,7 @@ def configs(tier, seed):
 
 def bounds(tier):
     return {"suites": "every behaviour class (version, cipher, mode, key length, hash, tag length) of TLExport's table; "
-                      + ("all members of each class" if tier == "thorough" else "one member per class chosen by VERIF_SEED"),
+                      + ("all members of each class (first handshake shape; every shape for one member)" if tier == "thorough" else "one member per class chosen by VERIF_SEED"),
             "handshake shapes": [s["shape"] for s in SHAPES_LEGACY] + [s["shape"] for s in SHAPES_13],
             "application records": "%d, each of solver-chosen length 0..%d and solver-chosen direction; all content, randoms, secrets, "
                                    "explicit IVs/nonces, MAC bytes symbolic" % ((2, 1) if tier == "quick" else (3, 2)),
